@@ -24,7 +24,14 @@ How the model uses the entries:
   DeferTick                        -> `defer_tick_lazy()`
   Batch / YieldConcat / ObserveNonDet -> identity in `ProdDfirBuilder` (`persist::<'static>` for a bounded top-level
                                       singleton/optional/keyed singleton entering a tick)
-  Source, SingletonSource          -> `source_stream`, `source_iter`, `source_iter -> persist::<'static>` inside a tick
+  Source, SingletonSource          -> `source_stream`, `source_iter`, `source_iter -> persist::<'static>` inside a tick;
+                                      `SingletonSource { first_tick_only: true }` (only inside a tick) -> `source_iter([v])` WITHOUT persist:
+                                      the value exists in the first tick only (`TTerm.firstTick`), otherwise in every tick (`TTerm.constS`)
+  library (not emit_core)          -> the hydro_lang functions that BUILD tick cycles out of these nodes: `Tick::cycle` =
+                                      `create_source(..).defer_tick()` (`TTerm.cyc`), `cycle_with_initial` = `create_source_with_initial`:
+                                      Optional: `from_previous_tick.or(initial.filter_if(optional_first_tick(()).is_some()))`
+                                      (`TTerm.optCycleWithInitial`), Singleton: `from_previous_tick.unwrap_or(initial)`
+                                      (`TTerm.singCycleWithInitial`); `filter_if`/`is_some`/`into_singleton`/`zip`/`or` as transcribed in Model/Tick.lean
 -/
 namespace HvHydro.Expected
 
@@ -46,7 +53,7 @@ def lowering : List (String × String) := [
   ("Batch", "call[batch]"),
   ("YieldConcat", "call[yield_from_tick]"),
   ("Source", "sel[debug_assert!(metadata.location_id.is_top_level());] ; dfir{#v0 = source_stream(#v1);} ; sel[if metadata.location_id.is_top_level() {] ; dfir{#v0 = source_iter(#v1);} ; dfir{#v0 = source_iter(#v1) -> persist::<'static>();} ; sel[debug_assert!(metadata.location_id.is_top_level());] ; dfir{#v0 = spin();} ; sel[debug_assert!(metadata.location_id.is_top_level());] ; dfir{#v0 = source_stream(#v1) -> tee(); #v2 = #v0;} ; dfir{#v0 = source_stream(DUMMY);} ; dfir{#v0 = #v1;} ; dfir{#v0 = source_stream(#v1);} ; dfir{#v0 = source_iter([#v1]);}"),
-  ("SingletonSource", "sel[!metadata.location_id.is_top_level(),] ; sel[|| (metadata.location_id.is_top_level()] ; sel[&& metadata.collection_kind.is_bounded())] ; dfir{#v0 = source_iter([#v1]);} ; dfir{#v0 = source_iter([#v1]) -> persist::<'static>();}"),
+  ("SingletonSource", "sel[if *first_tick_only {] ; sel[!metadata.location_id.is_top_level(),] ; sel[\"first_tick_only SingletonSource must be inside a tick\"] ; sel[if *first_tick_only] ; sel[|| (metadata.location_id.is_top_level()] ; sel[&& metadata.collection_kind.is_bounded())] ; dfir{#v0 = source_iter([#v1]);} ; dfir{#v0 = source_iter([#v1]) -> persist::<'static>();}"),
   ("CycleSource", ""),
   ("Tee", "dfir{#v0 = #v1 -> tee();}"),
   ("Chain", "dfir{#v0 = chain(); #v1 -> [0]#v0; #v2 -> [1]#v0;}"),
@@ -65,6 +72,20 @@ def lowering : List (String × String) := [
   ("Unique", "sel[let lifetime = if input.metadata().location_id.is_top_level() {] ; sel[graph_builders.cross_tick_state_lifetime(&out_location)] ; sel[graph_builders.tick_state_lifetime(&out_location)] ; dfir{#v0 = #v1 -> unique::<#lifetime>();}"),
   ("Fold", "sel[if input.metadata().location_id.is_top_level()] ; sel[&& input.metadata().collection_kind.is_bounded()] ; op(fold_no_replay) ; op(fold) ; op(scan) ; op(scan_async_blocking) ; sel[if input.metadata().location_id.is_top_level()] ; sel[&& input.metadata().collection_kind.is_bounded()] ; op(fold_keyed) ; sel[let input_top_level = input.metadata().location_id.is_top_level();] ; sel[graph_builders.cross_tick_state_lifetime(&out_location)] ; sel[graph_builders.tick_state_lifetime(&out_location)] ; sel[&& node.metadata().location_id.is_top_level()] ; call[singleton_intermediates] ; sel[&& !node.metadata().collection_kind.is_bounded()] ; call[emit_fold_hook] ; op({ let mut __inner = #acc_tokens; move |__state, __batch: Vec<_>| { if __batch.is_empty() { return None; } for __value in __batch { __inner(__state, __value); } Some(__state.clone()) } }) ; op({ let mut __inner = #acc_tokens; move |__state, __value| { __inner(__state, __value); Some(__state.clone()) } }) ; dfir{source_iter([(#v0)()]) -> [0]#v1; #v2 -> scan::<#lifetime>(#v0, #v3) -> [1]#v1; #v1 = chain();} ; sel[&& node.metadata().location_id.is_top_level()] ; call[singleton_intermediates] ; sel[&& !node.metadata().collection_kind.is_bounded()] ; call[emit_fold_hook] ; op({ let mut __init = #init_tokens; let mut __inner = #acc_tokens; move |__state, __kv: (_, _)| { let __state = __state .entry(::std::clone::Clone::clone(&__kv.0)) .or_insert_with(|| (__init)()); __inner(__state, __kv.1); Some((__kv.0, ::std::clone::Clone::clone(&*__state))) } }) ; dfir{#v0 = #v1 -> flatten() -> scan::<#lifetime>(|| ::std::collections::HashMap::new(), #v2);} ; dfir{#v0 = #v1 -> scan::<#lifetime>(|| ::std::collections::HashMap::new(), #v2);} ; sel[&& !node.metadata().location_id.is_top_level()] ; call[singleton_intermediates] ; call[emit_fold_hook] ; dfir{#v0 = #v1 -> #operator::<#lifetime>(#v2, #v3);} ; dfir{#v0 = #v1 -> #operator::<#lifetime>(#v2, #v3);}"),
   ("Reduce", "sel[if input.metadata().location_id.is_top_level()] ; sel[&& input.metadata().collection_kind.is_bounded()] ; op(reduce_no_replay) ; op(reduce) ; sel[if input.metadata().location_id.is_top_level()] ; sel[&& input.metadata().collection_kind.is_bounded()] ; op(reduce_keyed) ; sel[let input_top_level = input.metadata().location_id.is_top_level();] ; sel[graph_builders.cross_tick_state_lifetime(&out_location)] ; sel[graph_builders.tick_state_lifetime(&out_location)] ; sel[&& node.metadata().location_id.is_top_level()] ; call[singleton_intermediates] ; sel[&& !node.metadata().collection_kind.is_bounded()] ; sel[&& node.metadata().location_id.is_top_level()] ; call[singleton_intermediates] ; sel[&& !node.metadata().collection_kind.is_bounded()] ; dfir{#v0 = #v1 -> #operator::<#lifetime>(#v2);}")
+]
+
+/-- library code of hydro_lang (not emit_core) the tick-cycle model is transcribed from -/
+def library : List (String × String) := [
+  ("Optional::create_source_with_initial<TickCycle>", "let from_previous_tick: Optional<T, Tick<L>, Bounded> = Optional::new( location.clone(), HydroNode::DeferTick { input: Box::new(HydroNode::CycleSource { cycle_id, metadata: location.new_node_metadata(Self::collection_kind()), }), metadata: location .new_node_metadata(Optional::<T, Tick<L>, Bounded>::collection_kind()), }, ); from_previous_tick.or(initial.filter_if(location.optional_first_tick(q!(())).is_some()))"),
+  ("Singleton::create_source_with_initial<TickCycle>", "let from_previous_tick: Optional<T, Tick<L>, Bounded> = Optional::new( location.clone(), HydroNode::DeferTick { input: Box::new(HydroNode::CycleSource { cycle_id, metadata: location.new_node_metadata(Self::collection_kind()), }), metadata: location .new_node_metadata(Optional::<T, Tick<L>, Bounded>::collection_kind()), }, ); from_previous_tick.unwrap_or(initial)"),
+  ("Optional::filter_if", "self.zip(signal.filter(q!(|b| *b))).map(q!(|(d, _)| d))"),
+  ("Optional::is_some", "self.map(q!(|_| ())) .into_singleton() .map(q!(|o| o.is_some()))"),
+  ("Optional::into_singleton", "let none: syn::Expr = parse_quote!(::std::option::Option::None); let none_singleton = Singleton::new( self.location.clone(), HydroNode::SingletonSource { value: none.into(), first_tick_only: false, metadata: self .location .new_node_metadata(Singleton::<Option<T>, L, B>::collection_kind()), }, ); self.map(q!(|v| Some(v))).unwrap_or(none_singleton)"),
+  ("Optional::zip_inside_tick", "check_matching_location(&me.location, &other.location); Optional::new( me.location.clone(), HydroNode::CrossSingleton { left: Box::new(me.ir_node.replace(HydroNode::Placeholder)), right: Box::new(other.ir_node.replace(HydroNode::Placeholder)), metadata: me .location .new_node_metadata(Optional::<(T, O), L, B>::collection_kind()), }, )"),
+  ("Optional::or_inside_tick", "check_matching_location(&me.location, &other.location); Optional::new( me.location.clone(), HydroNode::ChainFirst { first: Box::new(me.ir_node.replace(HydroNode::Placeholder)), second: Box::new(other.ir_node.replace(HydroNode::Placeholder)), metadata: me .location .new_node_metadata(Optional::<T, L, B>::collection_kind()), }, )"),
+  ("Tick::cycle", "let cycle_id = self.flow_state().borrow_mut().next_cycle_id(); ( TickCycleHandle::new(cycle_id, Location::id(self)), S::create_source(cycle_id, self.clone().with_consistency_of()).defer_tick(), )"),
+  ("Tick::cycle_with_initial", "let cycle_id = self.flow_state().borrow_mut().next_cycle_id(); ( TickCycleHandle::new(cycle_id, Location::id(self)), S::create_source_with_initial(cycle_id, initial, self.clone().with_consistency_of()), )"),
+  ("Tick::optional_first_tick", "let e = e.splice_untyped_ctx(self); Optional::new( self.clone(), HydroNode::SingletonSource { value: e.into(), first_tick_only: true, metadata: self.new_node_metadata(Optional::<T, Self, Bounded>::collection_kind()), }, )")
 ]
 
 end HvHydro.Expected
